@@ -20,6 +20,14 @@ fn main() {
         selftest();
         return;
     }
+    if args.len() >= 3 && args[1] == "load" {
+        // replay of one voice file through the real loader, panics with their full message
+        match jbonsai::model::load_htsvoice_file(&args[2]) {
+            Ok(v) => println!("ok: {} streams", v.stream_models.len()),
+            Err(e) => println!("error: {}", e),
+        }
+        return;
+    }
     if args.len() < 3 || args[1] != "gen" {
         eprintln!("usage: jbharness gen <Cxx> [--seed N] [--tier quick|thorough]");
         std::process::exit(2);
